@@ -34,6 +34,11 @@ namespace OP2Utility::Stream
 		file.read(static_cast<char*>(buffer), size);
 		// Check stream flags for errors
 		if (!file) {
+			// Leave the stream usable for later calls: clear the error flags
+			// and move back to where the failed read started
+			auto bytesRead = file.gcount();
+			file.clear();
+			file.seekg(-bytesRead, std::ios_base::cur);
 			throw std::runtime_error("Error reading from file");
 		}
 	}
